@@ -15,7 +15,11 @@
    Drop glue (rustc): dropping a map drops each Arc; an Arc reaching 0 drops the GuestRegionMmap, whose
    MmapRegion field runs  `impl Drop for MmapRegion { if self.owned { munmap(addr, size) } }`
    (mmap/unix.rs:424-441).
-   Guest layout used by the suite: the region created in slot k covers [k*0x10000, k*0x10000+0x1000). *)
+   Guest layout used by the suite: the region created in slot k covers [k*0x10000, k*0x10000+0x1000).
+
+   REFUSALS (added): a creation the library refuses (CreateRefused), and the two calls that CONSUME their
+   arguments - from_regions / from_arc_regions taking the vector by value (BuildMove) and insert_region taking the
+   Arc by value (InsertMove): whatever the call does not keep is dropped before it returns, Ok or Err. *)
 From VM Require Import Prelude.MachInt.
 
 Definition updf {A} (f : N -> A) (k : N) (v : A) : N -> A := fun x => if x =? k then v else f x.
@@ -40,7 +44,9 @@ Definition with_strong (x : rrec) (n : nat) : rrec :=
 
 (* Arc::clone *)
 Definition clone1 (x : rrec) : rrec := with_strong x (S (r_strong x)).
-(* impl Drop for MmapRegion, mmap/unix.rs:424-441 *)
+(* impl Drop for MmapRegion, mmap/unix.rs:424-441: `if self.owned { munmap(self.addr, self.size) }` - the region's OWN
+   mapping, exactly: address and size are those build() got from mmap; no other field (file offset, prot, flags, the
+   caller's hugetlbfs hint) enters, and no other region's record is touched *)
 Definition drop_region (x : rrec) : rrec :=
   if r_owned x then
     {| r_kind := r_kind x; r_slot := r_slot x; r_owned := r_owned x; r_strong := r_strong x; r_live := false;
@@ -119,7 +125,19 @@ Inductive op :=
   | Remove (hm : nat) (base size : N)      (* map.remove_region(base, size) *)
   | CloneH (h : nat)
   | Snap (hm : nat)                        (* Arc::new(map.clone()) *)
-  | DropH (h : nat).
+  | DropH (h : nat)
+  (* a creation request the library refuses.  v < 6: refused by MmapRegionBuilder::build / build_raw BEFORE any mmap
+     (0 file range past EOF, 1 file offset + size overflows: check_file_offset mmap/unix.rs:140 -> mmap/mod.rs:80-101;
+      2 / 3 MAP_FIXED in the flags, anonymous / file: unix.rs:132-134; 4 / 5 misaligned raw pointer through
+      with_raw_mmap_pointer().build() / MmapRegion::build_raw: unix.rs:199-202).
+     v = 6 / 7 / 8: an anonymous / file / raw MmapRegion was BUILT and GuestRegionMmap::new(mapping, base) refuses it
+     (base + size overflows, mmap/mod.rs:120-122); `mapping` was moved into the call and is dropped there *)
+  | CreateRefused (v slot : N)
+  (* from_arc_regions(vec![the handles' Arcs themselves]) / (unwrap) from_regions(vec![Arc::try_unwrap(handle)..]):
+     the handles are moved into the call (mmap/mod.rs:420-452) *)
+  | BuildMove (unwrap : bool) (hs : list nat)
+  (* map.insert_region(the handle's Arc itself) (mmap/mod.rs:458-467) *)
+  | InsertMove (hm hr : nat).
 
 Inductive result := Done (v : list N) | Failed | Impossible.
 
@@ -130,6 +148,14 @@ Fixpoint region_handles (s : state) (hs : list nat) {struct hs} : option (list N
               | Some (HRegion r), Some l => Some (r :: l)
               | _, _ => None end
   end.
+
+(* handles moved out of the handle table *)
+Fixpoint kill (hs : list nat) (l : list (option handle)) {struct hs} : list (option handle) :=
+  match hs with [] => l | h :: t => kill t (set_nth l h None) end.
+Fixpoint nodupb (l : list nat) {struct l} : bool :=
+  match l with [] => true | x :: t => negb (existsb (Nat.eqb x) t) && nodupb t end.
+(* Arc::try_unwrap succeeds iff the strong count is 1 *)
+Definition all_sole (f : N -> rrec) (rs : list N) : bool := forallb (fun r => Nat.eqb (r_strong (f r)) 1) rs.
 
 Definition push (s : state) (f : N -> rrec) (hs : list handle) : state :=
   {| reg := f; nreg := nreg s; snaps := snaps s; handles := handles s ++ map Some hs |}.
@@ -218,7 +244,50 @@ Definition exec (o : op) (s : state) : state * result :=
               end
           | None => (s, Impossible) end
       | None => (s, Impossible) end
+  | CreateRefused v slot =>
+      if v <? 6 then (s, Failed)                     (* Err before the mmap call: nothing was mapped *)
+      else
+        let r := nreg s in
+        let kind := (v - 6) mod 3 in
+        (* what build() / build_raw() returned: mapped, owned unless raw; never put into an Arc *)
+        let built := {| r_kind := kind; r_slot := slot; r_owned := negb (kind =? 2); r_strong := O; r_live := true;
+                        r_unmaps := O; r_ub := false |} in
+        (* GuestRegionMmap::new: Err(InvalidGuestRegion) :121; the MmapRegion it was given is dropped *)
+        ({| reg := updf (reg s) r (drop_region built); nreg := r + 1; snaps := snaps s; handles := handles s |}, Failed)
+  | BuildMove unwrap hs =>
+      match region_handles s hs with
+      | Some rs =>
+          if nodupb hs && (if unwrap then all_sole (reg s) rs else true) then
+            let hl := kill hs (handles s) in                               (* moved into the Vec *)
+            if from_arc_regions_ok (reg s) rs                              (* :433-452 (after Arc::new, count 1, for from_regions :421) *)
+            then ({| reg := reg s; nreg := nreg s; snaps := snaps s; handles := hl ++ [Some (HMap rs)] |}, Done rs)
+            else ({| reg := drop_arcs rs (reg s); nreg := nreg s; snaps := snaps s; handles := hl |}, Failed)   (* Err: the Vec is dropped *)
+          else (s, Impossible)
+      | None => (s, Impossible) end
+  | InsertMove hm hr =>
+      match get_handle s hm, get_handle s hr with
+      | Some (HMap rs), Some (HRegion r) =>
+          let f1 := clone_arcs rs (reg s) in                               (* :462 self.regions.clone() *)
+          let rs' := sort_by_start f1 (rs ++ [r]) in                       (* :463 push(region), :464 sort *)
+          let hl := set_nth (handles s) hr None in                         (* the Arc was moved into the call *)
+          if from_arc_regions_ok f1 rs'                                    (* :466 *)
+          then ({| reg := f1; nreg := nreg s; snaps := snaps s; handles := hl ++ [Some (HMap rs')] |}, Done rs')
+          else ({| reg := drop_arcs rs' f1; nreg := nreg s; snaps := snaps s; handles := hl |}, Failed)
+      | _, _ => (s, Impossible) end
   end.
+
+(* the handles an operation is given *)
+Definition args (o : op) : list nat :=
+  match o with
+  | Create _ _ | CreateRefused _ _ => []
+  | Build hs | BuildMove _ hs => hs
+  | Insert hm hr | InsertMove hm hr => [hm; hr]
+  | Remove hm _ _ | Snap hm => [hm]
+  | CloneH h | DropH h => [h]
+  end.
+(* the handles an operation consumes (moves out of the client's hands), whatever it answers *)
+Definition consumed (o : op) : list nat :=
+  match o with BuildMove _ hs => hs | InsertMove _ hr => [hr] | _ => [] end.
 
 Fixpoint run_from (l : list op) (s : state) {struct l} : state :=
   match l with [] => s | o :: t => run_from t (fst (exec o s)) end.
